@@ -268,6 +268,46 @@ mod h {
         }
         kani::cover!(kinds[0] == 1, "COV:C14.order.constant_present");
     }
+    /// A constant that reaches a context variable only THROUGH A CYCLE of functions is rejected,
+    /// whatever the identifiers' order: f <-> g, f -> ctx, K -> g (4 items, concrete; the memo of
+    /// the depth-first search must not keep an answer computed while the cycle was still open).
+    fn check_context_through_cycle(f: u8, g: u8, k: u8, c: u8) {
+        let mut m = BTreeMap::new();
+        let mut i = 0u8;
+        while i < 4 {
+            let mut s = BTreeSet::new();
+            if i == f {
+                s.insert(ResolvedName(g));
+                s.insert(ResolvedName(c));
+            } else if i == g {
+                s.insert(ResolvedName(f));
+            } else if i == k {
+                s.insert(ResolvedName(g));
+            }
+            m.insert(ResolvedName(i), s);
+            i += 1;
+        }
+        let mut decls = [DeclarationKind::Function(None); 4];
+        decls[k as usize] = DeclarationKind::Value(crate::typechecker::scope::ValueKind::Constant, None);
+        decls[c as usize] = DeclarationKind::Value(crate::typechecker::scope::ValueKind::Context(0), None);
+        let tc = TypeChecker { references: RefGraph { references: m }, type_info: TypeInfo { scope_graph: ScopeGraph { decls } } };
+        let res = tc.context_check();
+        assert!(matches!(res, Err(TypeError::ConstantUsesContext(i)) if i == k), "OBL:C14.context.constant_reaching_context_through_a_function_cycle_is_rejected");
+        let res2 = tc.find_compilation_order();
+        assert!(res2.is_err(), "OBL:C14.order.constant_reaching_context_is_rejected");
+        kani::cover!(true, "COV:C14.context.cycle_case_reached");
+    }
+    macro_rules! context_cycle_case {
+        ($($name:ident = ($f:expr, $g:expr, $k:expr, $c:expr)),*) => {$(
+            #[kani::proof]
+            #[kani::unwind(8)]
+            fn $name() { check_context_through_cycle($f, $g, $k, $c); }
+        )*};
+    }
+    context_cycle_case!(c14_u2_context_cycle_fgkc = (0, 1, 2, 3), c14_u2_context_cycle_fgck = (0, 1, 3, 2),
+        c14_u2_context_cycle_kfgc = (1, 2, 0, 3), c14_u2_context_cycle_gfkc = (1, 0, 2, 3),
+        c14_u2_context_cycle_cfgk = (1, 2, 3, 0), c14_u2_context_cycle_fkgc = (0, 2, 1, 3));
+
     macro_rules! order_case {
         ($name:ident, $mask:expr, $first:expr) => {
             #[kani::proof]
